@@ -35,6 +35,7 @@ structure BCrypto where
   keyOk : Bytes → Bool                    -- `key_from_public_bin` does not raise
   sigLen : Bytes → Nat                    -- `get_signature_length` of the parsed key
   verify : Bytes → Bytes → Bytes → Bool   -- `is_valid_signature(key, message, signature)`
+  canon : Bytes → Bytes                   -- `key.key_to_bin()` of the parsed key: one byte string per key
 
 /-- `value[-n:]` -/
 def pyLast (v : Bytes) (n : Nat) : Bytes := if n = 0 then v else v.drop (v.length - n)
@@ -70,7 +71,7 @@ def unserializeB (B : BCrypto) (v : Bytes) : BUnser :=
       | none => .raise
       | some (data, ver, pk, _) =>
         if B.keyOk pk then
-          if B.verify pk (pyButLast v (B.sigLen pk)) (pyLast v (B.sigLen pk)) then .ok data (some pk) ver
+          if B.verify pk (pyButLast v (B.sigLen pk)) (pyLast v (B.sigLen pk)) then .ok data (some (B.canon pk)) ver
           else .none
         else .raise
     else .none
